@@ -407,9 +407,16 @@ type c12Setup struct {
 
 func genC12Setup(t *rapid.T) c12Setup {
 	c := c12Setup{UEAlloc: rapid.Bool().Draw(t, "uealloc"), EndM: rapid.Bool().Draw(t, "endm"), HBMs: rapid.SampledFrom([]int{0, 200, 300}).Draw(t, "hb")}
+	// every fourth case runs on the P4Runtime datapath (the switch stays connected: the reconnect path of the
+	// plug-in sleeps for 10 s; features, time stamps and heartbeats are checked there, and every attempt is accepted)
+	c.UP4 = rapid.IntRange(0, 3).Draw(t, "up4") == 0
 	n := rapid.IntRange(2, 9).Draw(t, "n")
+	steps := []string{"hb", "hb", "assoc", "assoc", "assocnew", "down", "up", "wait", "peerhbburst"}
+	if c.UP4 {
+		steps = []string{"hb", "hb", "assoc", "assoc", "assocnew", "wait", "peerhbburst"}
+	}
 	for i := 0; i < n; i++ {
-		c.Steps = append(c.Steps, rapid.SampledFrom([]string{"hb", "hb", "assoc", "assoc", "assocnew", "down", "up", "wait", "peerhbburst"}).Draw(t, "step"))
+		c.Steps = append(c.Steps, rapid.SampledFrom(steps).Draw(t, "step"))
 	}
 	return c
 }
@@ -447,7 +454,7 @@ func checkFeatures(f []byte, uealloc, endm bool, what string) error {
 }
 
 func runC12Setup(c c12Setup, ev *Ev) error {
-	r, err := newRig(RigOpts{EndMarker: c.EndM, Mut: func(conf *pfcpiface.Conf) {
+	r, err := newRig(RigOpts{UP4: c.UP4, EndMarker: c.EndM, Mut: func(conf *pfcpiface.Conf) {
 		conf.CPIface.EnableUeIPAlloc = c.UEAlloc
 		conf.CPIface.UEIPPool = "10.250.0.0/16"
 		if c.HBMs > 0 {
@@ -536,9 +543,19 @@ func runC12Setup(c c12Setup, ev *Ev) error {
 			if err := checkFeatures(f, c.UEAlloc, c.EndM, fmt.Sprintf("step %d: Association Setup Response (accepted=%v)", i, o.Accepted)); err != nil {
 				return err
 			}
-			conns, since := r.B.Conns()
+			if c.UP4 {
+				// the switch is connected throughout (newRig waited for the pipeline and a warm-up association)
+				if !o.Accepted {
+					return fmt.Errorf("step %d: association rejected (cause %d) although the P4Runtime datapath is connected", i, o.Cause)
+				}
+				ev.Label("up4-setup")
+			}
+			conns, since := int64(1), time.Time{}
+			if r.B != nil {
+				conns, since = r.B.Conns()
+			}
 			stable := time.Since(since) > 60*time.Millisecond && time.Since(changed) > 60*time.Millisecond
-			if stable {
+			if stable && r.B != nil {
 				if conns > 0 && !down && !o.Accepted {
 					return fmt.Errorf("step %d: association rejected (cause %d) although the datapath connection has been up for %v", i, o.Cause, time.Since(since))
 				}
@@ -582,7 +599,7 @@ func runC12Setup(c c12Setup, ev *Ev) error {
 
 func TestC12Setup(t *testing.T) {
 	ev := newEv("C12")
-	ev.Rule = "fresh BESS agent per case over the 4 feature configurations (UE-IP allocation x end markers) with heartbeats off/on; generated sequences of peer heartbeats (before and after association, bursts), association attempts (repeated with the same and, for a restarted peer, with a newer Recovery Time Stamp), and datapath down/up (harness BESS server stopped and restarted); checks: every peer heartbeat answered, one Recovery Time Stamp for the life of the association and equal to the setup response's, peer heartbeats postpone the agent's own, advertised UP features in accepted and rejected responses, acceptance iff a datapath transport connection has been up (rejection iff none) for >= 60 ms; non-trivial = a case with an accepted and a rejected association attempt"
+	ev.Rule = "fresh agent per case (BESS; every fourth case UP4 with the switch connected throughout) over the 4 feature configurations (UE-IP allocation x end markers) with heartbeats off/on; generated sequences of peer heartbeats (before and after association, bursts), association attempts (repeated with the same and, for a restarted peer, with a newer Recovery Time Stamp), and datapath down/up (harness BESS server stopped and restarted); checks: every peer heartbeat answered, one Recovery Time Stamp for the life of the association and equal to the setup response's, peer heartbeats postpone the agent's own, advertised UP features in accepted and rejected responses, acceptance iff a datapath transport connection has been up (rejection iff none) for >= 60 ms; non-trivial = a case with an accepted and a rejected association attempt"
 	runProp(t, ev, "setup", true, genC12Setup, runC12Setup)
 }
 
